@@ -82,3 +82,27 @@ Proof.
     + eapply Forall_impl; [|apply valid_prefix_valid]. intros l Hl. apply valid_line_ok; assumption.
     + apply Forall_forall. intros f _. eapply Forall_impl; [|apply valid_prefix_valid]. intros l Hl. apply valid_line_ok; assumption.
 Qed.
+
+(* UTF-8 text in, [cli_main] out: on the inputs the property speaks of (every argument and input the
+   encoding of a scalar-value text) the program on bytes IS the program of Model/Cli.v *)
+Lemma all_lines_utf8_encode cs : Forall scalar cs -> all_lines_utf8 (encode_utf8 cs) = true.
+Proof.
+  intros Hs. unfold all_lines_utf8. destruct (buf_lines_utf8 cs Hs) as [-> Hl]. apply forallb_forall. intros l Hin.
+  apply in_map_iff in Hin as (cl & <- & Hcl). rewrite Forall_forall in Hl. apply valid_utf8_iff. exists cl. split; [exact (Hl cl Hcl)|reflexivity].
+Qed.
+
+Theorem cli_main_raw_utf8_text (fl : cli_flags) (pfile pstr : option (list N)) (stdin : list N) (files : list (list N * list N)) :
+  (forall f, pfile = Some f -> Forall scalar f) -> Forall scalar stdin ->
+  Forall (fun f => Forall scalar (fst f) /\ Forall scalar (snd f)) files ->
+  let bfiles := map (fun f => (encode_utf8 (fst f), encode_utf8 (snd f))) files in
+  cli_main_raw fl (option_map encode_utf8 pfile) pstr (encode_utf8 stdin) bfiles
+  = cli_main fl (option_map encode_utf8 pfile) pstr (encode_utf8 stdin) bfiles.
+Proof.
+  intros Hf Hs Hfs bfiles. apply cli_main_raw_on_utf8_lines.
+  - intros f E. destruct pfile as [f0|]; [|discriminate]. cbn [option_map] in E. injection E as <-. apply all_lines_utf8_encode. exact (Hf f0 eq_refl).
+  - apply all_lines_utf8_encode. exact Hs.
+  - apply forallb_forall. intros f Hin. unfold bfiles in Hin. apply in_map_iff in Hin as (f0 & <- & Hf0). cbn [fst snd].
+    rewrite Forall_forall in Hfs. destruct (Hfs f0 Hf0) as [Hn Hc]. apply andb_true_iff. split.
+    + apply valid_utf8_iff. exists (fst f0). split; [exact Hn|reflexivity].
+    + apply all_lines_utf8_encode. exact Hc.
+Qed.
